@@ -163,7 +163,9 @@ impl CompiledProgram {
             .map_err(|e| e.to_string())?;
         let simplicity_witness = named::to_witness_node(&self.simplicity, witness_values);
         let simplicity_redeem = match env {
-            Some(env) => simplicity_witness.finalize_pruned(env),
+            Some(env) => simplicity_witness
+                .finalize_pruned(env)
+                .and_then(|pruned| named::retype_redeem_node(&pruned)),
             None => simplicity_witness.finalize_unpruned(),
         };
         Ok(SatisfiedProgram {
